@@ -16,6 +16,13 @@ Decided:
                (open_read_only*, search, timeline, frame reads, stats, verify) can reach a store that makes that
                condition true. commit() upgrades a read-only handle silently (ensure_writable), so a flag that a
                read path can set and Drop tests turns a read-only session into a full commit at close.
+  UNIT-C18e   positions found inside the tail window are rebased: in every caller of locate_footer_window, a value that
+              derives from FooterSlice.footer_offset / toc_offset (relative to the window the footer was searched in)
+              and is stored as a position of the snapshot is summed with the window start the same call returned.
+              For files no larger than the window the adjustment is 0, which is why tests do not see it; with a
+              window-relative footer offset in the header a read-only open of a larger file finds its Tantivy
+              segments "beyond the footer" and takes the self-healing path that rewrites the TOC through the
+              read-only handle.
 Not decided: byte equality of the file before/after (runtime)."""
 from . import lib, effects
 from .facts import op_place, rv_places
@@ -186,8 +193,39 @@ def _drop_commit(ctx, F):
         ctx.ok('EFFECT-C18d', dr, 'Drop commits only on %s, which no read-only constructor / read API sets' % ', '.join('Memvid.' + x for x in sorted(fields)), line=cm[0].line)
 
 
+def _window_rebase(ctx, F):
+    ctx.rule('UNIT-C18e', 'callers of locate_footer_window add the window start to every FooterSlice offset they keep as a file position')
+    n = 0
+    for f in sorted(F.fns.values(), key=lambda x: x.path):
+        lw = f.calls_to('locate_footer_window')
+        if not lw or f.r.get('derive'):
+            continue
+        for body in [f] + F.closures_of(f):
+            for bb, i, st in body.stmts():
+                rv = st['rv']
+                ops = []
+                if rv['k'] == 'agg' and rv.get('ak') == 'adt' and rv.get('fields') and rv.get('adt') not in ('Result', 'Option'):
+                    ops = [(fld, op) for fld, op in zip(rv['fields'], rv['ops'])]
+                for fld, op in ops:
+                    sl = lib.slice_back(body, [op], through_calls=True, at=(bb, i))
+                    rel = sorted(x for o, x in sl.fields if o == 'FooterSlice' and x in ('footer_offset', 'toc_offset'))
+                    if not rel:
+                        continue
+                    n += 1
+                    ctx.evaluations += 1
+                    ctx.touch(body, 1)
+                    if {'Add', 'AddWithOverflow'} & sl.ops or any(c.name in ('checked_add', 'saturating_add', 'wrapping_add') for c in sl.calls):
+                        ctx.ok('UNIT-C18e', body, '%s.%s = FooterSlice.%s + window start' % (rv.get('adt'), fld, rel[0]), line=st.get('l'))
+                    else:
+                        ctx.bad('UNIT-C18e', body, '%s.%s is taken from FooterSlice.%s, which is relative to the tail window, without adding the window start: for files larger than the window the '
+                                'snapshot places the footer too early, and a read-only open then takes the footer-realignment path that rewrites the TOC' % (rv.get('adt'), fld, rel[0]),
+                                line=st.get('l'), sink='%s.%s' % (rv.get('adt'), fld), detail='window-relative-offset:' + fld)
+    ctx.floor('UNIT-C18e', n, 1, 'snapshot fields derived from FooterSlice offsets')
+
+
 def run(ctx):
     _drop_commit(ctx, ctx.facts())
+    _window_rebase(ctx, ctx.facts())
     ctx.rule('EFFECT-C18a', 'no memory-file write reachable from a public self-method or read-only constructor without first passing a writability guard')
     ctx.rule('WMC-C18b', 'open_read_only_snapshot never reaches WAL replay; TOC from load_tail_snapshot; WAL opened read-only')
     ctx.rule('MPT-C18c', 'every writing EmbeddedWal method passes assert_writable first')
